@@ -109,3 +109,17 @@ pub open spec fn res_shape(f: BddPtr, g: BddPtr, h: BddPtr, r: BddPtr, o: VarOrd
 pub open spec fn res_canon(f: BddPtr, g: BddPtr, h: BddPtr, r: BddPtr) -> bool {
     canon(f) && canon(g) && canon(h) ==> canon(r)
 }
+
+/// on every path from p the variables at levels k, k+1, .., n-1 are tested exactly once, in this order
+pub open spec fn smooth_from(p: BddPtr, k: int, n: int, o: VarOrder) -> bool
+    decreases n - k
+{
+    if k >= n { true } else {
+        is_node(p) && 0 <= k < o.pos_to_var.len() && node_of(p).var.0 == o.pos_to_var[k]
+        && smooth_from(node_of(p).low, k + 1, n, o) && smooth_from(node_of(p).high, k + 1, n, o)
+    }
+}
+pub proof fn lemma_smooth_neg(o: VarOrder)
+    ensures forall|p: BddPtr, k: int, n: int| #![trigger smooth_from(p.neg_s(), k, n, o)] smooth_from(p.neg_s(), k, n, o) == smooth_from(p, k, n, o),
+{
+}
